@@ -25,7 +25,9 @@ type c11Case struct {
 	JSONP    bool     `json:"jsonp"`
 	Cause    string   `json:"cause"`
 	Ops      []string `json:"ops"`
-	Seed     string   `json:"seed"`
+	// AcceptEnc: the Accept-Encoding of every request of the session (mix histories)
+	AcceptEnc string `json:"accept_encoding"`
+	Seed      string `json:"seed"`
 }
 
 func genC11(rng *rand.Rand) c11Case {
@@ -39,8 +41,9 @@ func genC11(rng *rand.Rand) c11Case {
 	if c.Scenario == "mix" {
 		n := 4 + rng.IntN(16)
 		for i := 0; i < n; i++ {
-			c.Ops = append(c.Ops, []string{"poll", "poll", "post", "post", "send", "send", "sleep", "post-multi", "heartbeat-wait"}[rng.IntN(9)])
+			c.Ops = append(c.Ops, []string{"poll", "poll", "post", "post", "send", "send", "send-big", "sleep", "post-multi", "heartbeat-wait"}[rng.IntN(10)])
 		}
+		c.AcceptEnc = []string{"", "", "gzip", "deflate", "br", "zstd", "br, zstd", "zstd;q=1, br;q=0.5"}[rng.IntN(8)]
 	}
 	if c.Scenario == "octet-v4" {
 		c.Rev = 4
@@ -89,7 +92,7 @@ func runC11(c c11Case, rng *rand.Rand, r *rep.Report) (key, msg string, stats ma
 				})
 			}})
 			defer w.Finish()
-			cfg := rig.ClientCfg{Rev: c.Rev, Transport: "polling", JSONP: c.JSONP, J: "1", B64: c.JSONP && c.Rev == 3}
+			cfg := rig.ClientCfg{Rev: c.Rev, Transport: "polling", JSONP: c.JSONP, J: "1", B64: c.JSONP && c.Rev == 3, AcceptEnc: c.AcceptEnc}
 			cl, err := w.Connect(cfg)
 			rig.Wait()
 			sock := w.Socket(0)
@@ -278,6 +281,10 @@ func runC11(c c11Case, rng *rand.Rand, r *rep.Report) (key, msg string, stats ma
 						cl.Post(refcodec.Text(refcodec.Message, "a"), refcodec.Packet{Type: refcodec.Noop}, refcodec.Text(refcodec.Message, "b"))
 					case "send":
 						sock.Send(types.NewStringBufferString("s"), nil, nil)
+					case "send-big":
+						// above the compression threshold: the response body goes through the coding the
+						// request's Accept-Encoding names
+						sock.Send(types.NewStringBufferString(strings.Repeat("compressible text ", 80+rng.IntN(300))), nil, nil)
 					case "sleep":
 						time.Sleep(time.Duration(1+rng.IntN(400)) * time.Millisecond)
 					case "heartbeat-wait":
